@@ -877,6 +877,9 @@ func genC18(r *rng, tier string, emit func(string)) {
 	for _, it := range items {
 		g.derive(it)
 	}
+	// the handshake message parsers, compared with Model.TLSMessages field by field (harness/c15codec.go):
+	// every truncation, boundary cuts, resize mutations
+	c15cGen(r, tier, emit)
 
 	// BER nesting, indefinite and definite, depth 10 .. 10^4, into the BER transcoder and its caller; the
 	// DER decoders get the same shapes up to depth 1000
